@@ -10,10 +10,13 @@ import (
 	"io"
 	"math"
 	"os"
+	"os/exec"
 	"path/filepath"
 	"runtime"
 	"strings"
+	"syscall"
 	"unicode/utf8"
+	"verif/harness/disk"
 
 	"github.com/tonistiigi/fsutil/types"
 	"github.com/tonistiigi/fsutil/util"
@@ -160,6 +163,60 @@ func roundTrip(v vtMsg, fresh func() vtMsg) (res [4]bool, note string) {
 		}()
 	}
 	return
+}
+
+func pbVarint(x uint64) []byte {
+	var b []byte
+	for x >= 0x80 {
+		b = append(b, byte(x)|0x80)
+		x >>= 7
+	}
+	return append(b, byte(x))
+}
+
+func pbLenField(field int, claimed uint64, body []byte) []byte {
+	out := pbVarint(uint64(field<<3 | 2))
+	out = append(out, pbVarint(claimed)...)
+	return append(out, body...)
+}
+
+// nestedBytes instantiates one vector of WireGen!NestedAxes.
+func nestedBytes(v map[string]string) (b []byte, target string, ok bool) {
+	tail := bytes.Repeat([]byte{'x'}, map[string]int{"0": 0, "1": 1, "5": 5}[v["tail"]])
+	n := uint64(len(tail))
+	claim := map[string]uint64{"exact": n, "plus1": n + 1, "p16": 1 << 16, "p26": 1 << 26, "p31m1": 1<<31 - 1, "p40": 1 << 40, "p50": 1 << 50,
+		"p62": 1 << 62, "p63m1": 1<<63 - 1, "p64m1": 1<<64 - 1}[v["claim"]]
+	wrapStat := func(s []byte) ([]byte, string, bool) {
+		if v["wrap"] == "inPacket" {
+			return pbLenField(2, uint64(len(s)), s), "Packet", true
+		}
+		return s, "Stat", true
+	}
+	switch v["pos"] {
+	case "packet.stat":
+		if v["wrap"] != "bare" {
+			return nil, "", false
+		}
+		return pbLenField(2, claim, tail), "Packet", true
+	case "packet.data":
+		if v["wrap"] != "bare" {
+			return nil, "", false
+		}
+		return pbLenField(4, claim, tail), "Packet", true
+	case "stat.path":
+		return wrapStat(pbLenField(1, claim, tail))
+	case "stat.linkname":
+		return wrapStat(pbLenField(7, claim, tail))
+	case "stat.xattrs":
+		return wrapStat(pbLenField(10, claim, tail))
+	case "xattr.key":
+		e := pbLenField(1, claim, tail)
+		return wrapStat(pbLenField(10, uint64(len(e)), e))
+	case "xattr.value":
+		e := append(pbLenField(1, 1, []byte{'k'}), pbLenField(2, claim, tail)...)
+		return wrapStat(pbLenField(10, uint64(len(e)), e))
+	}
+	return nil, "", false
 }
 
 func tokenBytes(toks []string) []byte {
@@ -331,53 +388,10 @@ func Codec(c *Ctx) error {
 			return err
 		}
 	}
-	// 2. token grammar
-	for L := 1; L <= 5; L++ {
-		path := filepath.Join(gen, fmt.Sprintf("tokens%d.ndjson", L))
-		if _, err := os.Stat(path); err != nil {
-			break
-		}
-		err := readLines(path, func(ln []byte) error {
-			var t struct {
-				T []string `json:"t"`
-			}
-			if err := json.Unmarshal(ln, &t); err != nil {
-				return err
-			}
-			full := tokenBytes(t.T)
-			variants := [][]byte{full}
-			if len(full) > 1 {
-				variants = append(variants, full[:len(full)-1]) // cut inside the last token
-			}
-			for vi, b := range variants {
-				for _, target := range []string{"Packet", "Stat"} {
-					var a, bb vtMsg
-					if target == "Packet" {
-						a, bb = &types.Packet{}, &types.Packet{}
-					} else {
-						a, bb = &types.Stat{}, &types.Stat{}
-					}
-					var m0, m1 runtime.MemStats
-					runtime.ReadMemStats(&m0)
-					o1 := decodeOutcome(func() error { return a.UnmarshalVT(b) })
-					o2 := decodeOutcome(func() error { return proto.Unmarshal(b, bb) })
-					runtime.ReadMemStats(&m1)
-					alloc := m1.TotalAlloc - m0.TotalAlloc
-					agree := !(o1 == "value" && o2 == "value") || proto.Equal(a, bb)
-					c.Out.Emit(vt.Ev{"ev": "Decode", "case": c.NextCase(), "tokens": t.T, "cut": vi == 1, "target": target, "vt": o1, "pb": o2,
-						"allocOK": alloc <= uint64(8*len(b)+128*1024), "alloc": int(alloc), "agree": agree})
-					c.Stats.Case(fmt.Sprint("decode:", target, vi, t.T), true)
-					c.Stats.Count("decode:vt:"+o1, 1)
-					if !agree || o1 != o2 {
-						c.Stats.Count("decode:codecsDisagree", 1)
-					}
-				}
-			}
-			return nil
-		})
-		if err != nil {
-			return err
-		}
+	// 2. token grammar and nested length cases, decoded in a child process (address-space limit, restart after a crash:
+	// a decoder that allocates what a hostile length claims takes the process down, not just the call)
+	if err := runDecodeCases(c, gen); err != nil {
+		return err
 	}
 	// 3. framing: message sequences through util.NewProtoStream under fragmentations
 	mk := func(n int, seed byte) *types.Packet {
@@ -389,6 +403,15 @@ func Codec(c *Ctx) error {
 		{mk(40000, 5), mk(9, 6), mk(33000, 7), mk(1, 8)},          // larger than the pooled 32 KiB buffer
 		{mk(32764, 9), mk(32768-8, 10), mk(100, 11), mk(100, 12)}, // around the pool buffer size
 		{{Type: types.PACKET_STAT, Stat: statFromClass(map[string]string{"path": "ascii", "xattrs": "many", "mode": "reg"})}, mk(2, 13), {Type: types.PACKET_FIN}},
+	}
+	{
+		// every encoded size around the pooled 32 KiB buffer (body fits / header + body does not / neither)
+		var sweep []*types.Packet
+		for n := 32744; n <= 32776; n++ {
+			sweep = append(sweep, mk(n, byte(n)))
+		}
+		// first: the shared buffer pool must still hold only buffers of its native size
+		seqs = append([][]*types.Packet{sweep}, seqs...)
 	}
 	frags := [][]int{{1}, {2}, {3}, {5}, {7}, {4}, {1 << 20}, {3, 1, 4, 1, 5, 9, 2, 6}, {4096}, {32768}, {1, 1 << 20}}
 	if c.Thorough() {
@@ -506,4 +529,203 @@ func framesEqual(a, b []byte) bool {
 		}
 	}
 	return true
+}
+
+// ---------------------------------------------------------------------------
+// decode cases in a crash-isolated child
+
+type decodeCase struct {
+	Tokens []string
+	Cut    bool
+	Target string
+	B      []byte
+	Nested bool
+}
+
+// decodeCases enumerates the decode inputs in a fixed order: token strings (TLC files tokens<L>.ndjson),
+// each whole and cut inside the last token, then the nested length vectors (nested.ndjson); both targets.
+func decodeCases(gen string, yield func(dc decodeCase) error) error {
+	for L := 1; L <= 5; L++ {
+		path := filepath.Join(gen, fmt.Sprintf("tokens%d.ndjson", L))
+		if _, err := os.Stat(path); err != nil {
+			break
+		}
+		err := readLines(path, func(ln []byte) error {
+			var t struct {
+				T []string `json:"t"`
+			}
+			if err := json.Unmarshal(ln, &t); err != nil {
+				return err
+			}
+			full := tokenBytes(t.T)
+			variants := [][]byte{full}
+			if len(full) > 1 {
+				variants = append(variants, full[:len(full)-1]) // cut inside the last token
+			}
+			for vi, b := range variants {
+				for _, target := range []string{"Packet", "Stat"} {
+					if err := yield(decodeCase{Tokens: t.T, Cut: vi == 1, Target: target, B: b}); err != nil {
+						return err
+					}
+				}
+			}
+			return nil
+		})
+		if err != nil {
+			return err
+		}
+	}
+	if _, err := os.Stat(filepath.Join(gen, "nested.ndjson")); err == nil {
+		return readLines(filepath.Join(gen, "nested.ndjson"), func(ln []byte) error {
+			var v map[string]string
+			if err := json.Unmarshal(ln, &v); err != nil {
+				return err
+			}
+			b, target, ok := nestedBytes(v)
+			if !ok {
+				return nil
+			}
+			return yield(decodeCase{Tokens: []string{v["pos"], v["claim"], "tail" + v["tail"], v["wrap"]}, Target: target, B: b, Nested: true})
+		})
+	}
+	return nil
+}
+
+
+func init() { childRoles["decode-child"] = decodeChild }
+
+// decodeChild <gen> <out> <start>: decodes case start, start+1, ... and appends one line per case to <out>.
+func decodeChild(args []string) {
+	gen, out := args[0], args[1]
+	start := 0
+	fmt.Sscan(args[2], &start)
+	// hostile lengths must fail as allocation errors, not bring the machine down
+	lim := syscall.Rlimit{Cur: 6 << 30, Max: 6 << 30}
+	syscall.Setrlimit(syscall.RLIMIT_AS, &lim)
+	f, err := os.OpenFile(out, os.O_CREATE|os.O_APPEND|os.O_WRONLY, 0644)
+	if err != nil {
+		os.Exit(2)
+	}
+	idx := 0
+	err = decodeCases(gen, func(dc decodeCase) error {
+		idx++
+		if idx-1 < start {
+			return nil
+		}
+		var a, bb vtMsg
+		if dc.Target == "Packet" {
+			a, bb = &types.Packet{}, &types.Packet{}
+		} else {
+			a, bb = &types.Stat{}, &types.Stat{}
+		}
+		var m0, m1 runtime.MemStats
+		runtime.ReadMemStats(&m0)
+		o1 := decodeOutcome(func() error { return a.UnmarshalVT(dc.B) })
+		o2 := decodeOutcome(func() error { return proto.Unmarshal(dc.B, bb) })
+		runtime.ReadMemStats(&m1)
+		alloc := m1.TotalAlloc - m0.TotalAlloc
+		agree := !(o1 == "value" && o2 == "value") || proto.Equal(a, bb)
+		ln, _ := json.Marshal(vt.Ev{"idx": idx - 1, "vt": o1, "pb": o2, "allocOK": alloc <= uint64(8*len(dc.B)+128*1024), "alloc": int(alloc), "agree": agree})
+		if _, err := f.Write(append(ln, '\n')); err != nil {
+			return err
+		}
+		return nil
+	})
+	f.Close()
+	if err != nil {
+		fmt.Fprintln(os.Stderr, "decode child:", err)
+		os.Exit(2)
+	}
+	os.Exit(0)
+}
+
+func runDecodeCases(c *Ctx, gen string) error {
+	self, err := os.Executable()
+	if err != nil {
+		return err
+	}
+	dir := filepath.Join(c.Work, "decode")
+	os.MkdirAll(dir, 0755)
+	defer disk.RemoveAll(dir)
+	out := filepath.Join(dir, "results.ndjson")
+	countLines := func() int {
+		n := 0
+		readLines(out, func([]byte) error { n++; return nil })
+		return n
+	}
+	crashes := map[int]string{}
+	for restarts := 0; ; restarts++ {
+		done := countLines()
+		cmd := exec.Command(self, "decode-child", gen, out, fmt.Sprint(done))
+		var stderr bytes.Buffer
+		cmd.Stderr = &stderr
+		runErr := cmd.Run()
+		if runErr == nil {
+			break
+		}
+		if restarts > 40 {
+			return fmt.Errorf("decode child crashed more than 40 times: %v", runErr)
+		}
+		// the case in flight took the process down: record it and carry on after it
+		at := countLines()
+		msg := stderr.String()
+		if k := strings.Index(msg, "\n"); k > 0 {
+			msg = msg[:k]
+		}
+		crashes[at] = trunc(msg)
+		f, err := os.OpenFile(out, os.O_APPEND|os.O_WRONLY, 0644)
+		if err != nil {
+			return err
+		}
+		ln, _ := json.Marshal(vt.Ev{"idx": at, "vt": "panic", "pb": "panic", "allocOK": false, "alloc": -1, "agree": false, "crash": trunc(msg)})
+		f.Write(append(ln, '\n'))
+		f.Close()
+	}
+	// join results with the (re-enumerated) inputs
+	var results []vt.Ev
+	if err := readLines(out, func(ln []byte) error {
+		var e vt.Ev
+		if err := json.Unmarshal(ln, &e); err != nil {
+			return err
+		}
+		results = append(results, e)
+		return nil
+	}); err != nil {
+		return err
+	}
+	idx := 0
+	err = decodeCases(gen, func(dc decodeCase) error {
+		if idx >= len(results) {
+			return fmt.Errorf("decode results end at %d", idx)
+		}
+		r := results[idx]
+		idx++
+		ev := vt.Ev{"ev": "Decode", "case": c.NextCase(), "tokens": dc.Tokens, "cut": dc.Cut, "target": dc.Target, "vt": r["vt"], "pb": r["pb"],
+			"allocOK": r["allocOK"], "alloc": r["alloc"], "agree": r["agree"]}
+		if cr, ok := r["crash"]; ok {
+			ev["crash"] = cr
+			c.Stats.Count("decode:childCrashed", 1)
+		}
+		c.Out.Emit(ev)
+		o1, _ := r["vt"].(string)
+		o2, _ := r["pb"].(string)
+		if dc.Nested {
+			c.Stats.Case(fmt.Sprint("nested:", dc.Tokens, dc.Target), true)
+			c.Stats.Count("decode:nested:vt:"+o1, 1)
+		} else {
+			c.Stats.Case(fmt.Sprint("decode:", dc.Target, dc.Cut, dc.Tokens), true)
+			c.Stats.Count("decode:vt:"+o1, 1)
+		}
+		if ag, _ := r["agree"].(bool); !ag || o1 != o2 {
+			c.Stats.Count("decode:codecsDisagree", 1)
+		}
+		return nil
+	})
+	if err != nil {
+		return err
+	}
+	if idx != len(results) {
+		return fmt.Errorf("decode child produced %d results for %d cases", len(results), idx)
+	}
+	return nil
 }
